@@ -4,7 +4,7 @@
 //! Module run under the controlled scheduler (sched.rs) on all four backends; oracles EQ, ONCE,
 //! DISJOINT, RO, CANARY, progress. (Engine B, Miri, is driven by /verif/miri.sh.)
 use crate::driver::{Acc, CheckImpl, Tier, Viol, announce};
-use crate::fhe::{BACKENDS, EvalSpec, PrepSpec, RunOut, SharedSpec, Window, WindowMode, backend};
+use crate::fhe::{BACKENDS, EvalSpec, PrepSpec, RunOut, SharedSpec, WORD_OPS, Window, WindowMode, WordSpec, backend};
 use crate::prng::{Rng, mix};
 use crate::sched::{Config, Report, Strategy};
 use crate::util::{fnv, fnv_mix};
@@ -19,6 +19,7 @@ pub enum Scenario {
     Eval(EvalSpec),
     Prep(PrepSpec),
     Shared(SharedSpec),
+    Word(WordSpec),
 }
 
 #[derive(Clone, Debug)]
@@ -59,6 +60,7 @@ impl Run {
             Scenario::Eval(e) => ("eval", e.to_json()),
             Scenario::Prep(p) => ("prep", p.to_json()),
             Scenario::Shared(p) => ("shared", p.to_json()),
+            Scenario::Word(p) => ("word", p.to_json()),
         };
         json!({"engine":"A","backend": self.backend, "scenario": k, "spec": s, "strategy": strategy_json(&self.strategy),
                "sched_seed": self.sched_seed, "fill_seed": self.fill_seed})
@@ -70,6 +72,7 @@ impl Run {
             scenario: match v["scenario"].as_str().unwrap() {
                 "eval" => Scenario::Eval(EvalSpec::from_json(spec)),
                 "prep" => Scenario::Prep(PrepSpec::from_json(spec)),
+                "word" => Scenario::Word(WordSpec::from_json(spec)),
                 _ => Scenario::Shared(SharedSpec::from_json(spec)),
             },
             strategy: strategy_from(&v["strategy"]),
@@ -127,8 +130,14 @@ pub fn generate(seed: u64, idx: u64, thorough: bool) -> Run {
             out_poison: rng.next() | 1,
         })
     } else if kind < 85 {
-        let n = if thorough { *rng.pick(ns) } else { *rng.pick(&ns[..ns.len().min(2)]) };
-        let word_bits = if n >= 16 && rng.chance(300) { 16 } else { 8 };
+        let n = if thorough || rng.chance(250) { *rng.pick(ns) } else { *rng.pick(&ns[..ns.len().min(2)]) };
+        let word_bits = if n >= 32 && rng.chance(250) {
+            32
+        } else if n >= 16 && rng.chance(300) {
+            16
+        } else {
+            8
+        };
         let bit_start = rng.below(word_bits as u64) as usize;
         let bit_count = rng.range(1, (word_bits as usize - bit_start) as u64) as usize;
         let bit_count = if thorough { bit_count } else { bit_count.min(5) };
@@ -138,6 +147,15 @@ pub fn generate(seed: u64, idx: u64, thorough: bool) -> Run {
             bit_start,
             bit_count,
             threads: pick_threads(&mut rng, bit_count).min(12),
+        })
+    } else if kind < 89 {
+        // the word-level wrappers split one arena between packing and the evaluator threads
+        Scenario::Word(WordSpec {
+            n: 32,
+            op: rng.pick(WORD_OPS).to_string(),
+            threads: *rng.pick(&[2usize, 3, 4, 5, 7, 8, 12, 16, 31, 32, 33, 40]),
+            a: rng.next() as u32,
+            b: rng.next() as u32,
         })
     } else {
         Scenario::Shared(SharedSpec {
@@ -170,6 +188,7 @@ fn run_scenario(r: &Run, w: &Window, cfg: Option<Config>) -> (Result<RunOut, Str
         Scenario::Eval(s) => b.eval(s, w, cfg),
         Scenario::Prep(s) => b.prep(s, w, cfg),
         Scenario::Shared(s) => b.shared(s, cfg),
+        Scenario::Word(s) => b.word(s, w, cfg),
     }
 }
 
@@ -179,6 +198,7 @@ fn reference(r: &Run) -> Result<RunOut, String> {
     match &mut r1.scenario {
         Scenario::Eval(s) => s.threads = 1,
         Scenario::Prep(s) => s.threads = 1,
+        Scenario::Word(s) => s.threads = 1,
         Scenario::Shared(_) => {}
     }
     let w = Window {
@@ -227,7 +247,7 @@ pub fn execute(r: &Run) -> Result<Outcome, String> {
             if v.is_none() {
                 // ONCE
                 let site = match &r.scenario {
-                    Scenario::Eval(_) => poulpy_hal::verif::SITE_BDD_ITEM,
+                    Scenario::Eval(_) | Scenario::Word(_) => poulpy_hal::verif::SITE_BDD_ITEM,
                     Scenario::Prep(_) => poulpy_hal::verif::SITE_PREPARE_ITEM,
                     Scenario::Shared(_) => crate::sched::SITE_HARNESS,
                 };
@@ -235,6 +255,7 @@ pub fn execute(r: &Run) -> Result<Outcome, String> {
                     Scenario::Eval(s) => (0, s.outputs),
                     Scenario::Prep(s) => (s.bit_start, s.bit_count),
                     Scenario::Shared(s) => (0, s.threads),
+                    Scenario::Word(_) => (0, 32),
                 };
                 // nested scopes (SHARED op 3) add their own items on other sites; only top-level items are counted here
                 let mut seen = vec![0u32; cnt];
@@ -252,7 +273,20 @@ pub fn execute(r: &Run) -> Result<Outcome, String> {
                     }
                     seen[*a - lo] += 1;
                 }
-                if bad.is_none() && !matches!(r.scenario, Scenario::Shared(_)) {
+                if bad.is_none() && matches!(r.scenario, Scenario::Word(_)) {
+                    // the shipped circuits have 1..32 outputs depending on the operation (comparisons produce
+                    // one bit): the executed indices must be 0..k, each exactly once
+                    let k = seen.iter().rposition(|c| *c > 0).map(|p| p + 1).unwrap_or(0);
+                    if k == 0 {
+                        bad = Some("no work item executed".into());
+                    }
+                    for (i, c) in seen.iter().take(k).enumerate() {
+                        if *c != 1 {
+                            bad = Some(format!("work item {i} executed {c} times (items 0..{k} observed)"));
+                            break;
+                        }
+                    }
+                } else if bad.is_none() && !matches!(r.scenario, Scenario::Shared(_)) {
                     for (i, c) in seen.iter().enumerate() {
                         if *c != 1 {
                             bad = Some(format!("work item {} executed {c} times", lo + i));
@@ -387,6 +421,7 @@ impl CheckImpl for C20 {
                 Scenario::Eval(s) => ("eval", s.threads, s.outputs),
                 Scenario::Prep(s) => ("prep", s.threads, s.bit_count),
                 Scenario::Shared(s) => ("shared", s.threads, s.threads),
+                Scenario::Word(s) => ("word", s.threads, 32),
             };
             acc.bump(&format!("scenario.{sc}"));
             if requested > items {
